@@ -143,6 +143,11 @@ def expr(ctx: Ctx, e) -> tuple[str, object]:
         if b[0] == "k":
             return f"({b[1]})", "Z"
         refuse(ctx, e, "slice object used as a value")
+    if isinstance(e, ast.Attribute) and isinstance(e.value, ast.Name) and e.value.id == "self":
+        b = ctx.env.get("self." + e.attr)
+        if b is None:
+            refuse(ctx, e, "unknown attribute of self")
+        return b[1], b[2]
     if isinstance(e, ast.Attribute) and isinstance(e.value, ast.Name) and e.attr in ("start", "stop", "step"):
         b = ctx.env.get(e.value.id)
         if b is None:
@@ -613,7 +618,7 @@ def find_def(tree, qual):
 def last_toplevel(tree, name):
     found = None
     for ch in tree.body:
-        if isinstance(ch, ast.FunctionDef) and ch.name == name:
+        if isinstance(ch, (ast.FunctionDef, ast.ClassDef)) and ch.name == name:
             found = ch
     return found
 
@@ -635,17 +640,20 @@ def translate_function(src_path: Path, tree, item: dict, fns: dict) -> str:
     where = f"{src_path.name}:{qual}"
     if node is None:
         raise Refused(where, "function not found")
-    params = list(item.get("extra", [])) + list(item["params"])
+    selfattrs = list(item.get("self", []))
+    params = [("self_" + n, t) for n, t in selfattrs] + list(item.get("extra", [])) + list(item["params"])
     ctx = Ctx(where, fns, raises=item.get("raises", False), ret=item["ret"])
     if "genexp" not in item:
         got = [a.arg for a in node.args.args]
-        want = [n for n, _ in item["params"]]
+        want = (["self"] if selfattrs else []) + [n for n, _ in item["params"]]
         if got != want or node.args.vararg or node.args.kwarg or node.args.kwonlyargs:
             raise Refused(where, f"parameters are {got}, signature table says {want}")
     reserved = {"res", "bind", "fst", "snd", "Ok", "Err", "guard", "mod", "at", "as", "in", "end", "fun", "match", "with"}
     cname = {n: (n + "_p" if n in reserved else n) for n, _ in params}
     for n, t in params:
         ctx.env[n] = ("v", cname[n], t)
+    for n, t in selfattrs:
+        ctx.env["self." + n] = ("v", "self_" + n, t)
     if "genexp" in item:
         gens = [g for g in ast.walk(node) if isinstance(g, ast.GeneratorExp)]
         gens.sort(key=lambda g: (g.lineno, g.col_offset))
@@ -701,6 +709,6 @@ def translate_module(repo: Path, mod: dict) -> str:
         out.append(translate_function(p, trees[p], item, fns))
         short = item["py"].split(".")[-1]
         params = list(item.get("extra", [])) + list(item["params"])
-        if "genexp" not in item and not item.get("extra"):
+        if "genexp" not in item and not item.get("extra") and not item.get("self"):
             fns[short] = Fn(item["g"], params, item["ret"], item.get("raises", False))
     return "\n".join(out)
